@@ -1,18 +1,16 @@
 """Shared simulator discipline: seed derivation, worker pool, known-findings file, evidence
 writer, exit-code contract (DESIGN.md §2)."""
-import concurrent.futures as _cf
 import faulthandler
 import hashlib
 import json
-import multiprocessing as _mp
 import os
 import sys
 import time
 
 VERIF = os.path.dirname(os.path.dirname(os.path.abspath(__file__)))
 REPO = os.environ.get('VERIF_REPO', '/repo')
-EVIDENCE_DIR = os.path.join(VERIF, 'evidence')
-REPLAY_DIR = os.path.join(VERIF, 'replays')
+EVIDENCE_DIR = os.environ.get('VERIF_EVIDENCE_DIR') or os.path.join(VERIF, 'evidence')
+REPLAY_DIR = os.environ.get('VERIF_REPLAY_DIR') or os.path.join(VERIF, 'replays')
 KNOWN_FILE = os.path.join(VERIF, 'KNOWN_FINDINGS.txt')
 
 EXIT_HELD, EXIT_VIOLATION, EXIT_HARNESS = 0, 1, 2
@@ -69,77 +67,110 @@ def _chunk_entry(args):
         faulthandler.cancel_dump_traceback_later()
 
 
-_pin_counter = None
-
-
-def _pin_init(counter):
+def _pin(k):
     # one CPU per worker: the baton hand-off between a worker's threads is several times
     # cheaper when both threads stay on the same core
+    if os.environ.get('VERIF_PIN', '1') != '1':
+        return
     try:
         cpus = sorted(os.sched_getaffinity(0))
-        with counter.get_lock():
-            k = counter.value
-            counter.value += 1
         os.sched_setaffinity(0, {cpus[k % len(cpus)]})
     except (AttributeError, OSError):
         pass
 
 
 def pmap(fn, items, jobs=None, chunk=8, wall_per_chunk=600, budget_s=None):
-    """Map fn over items in forked workers, in item order.  A dead or hung worker is a
-    harness failure (WorkerDied), never a silent success.  Stops handing out new chunks once
-    budget_s is spent (returns results for the prefix that was processed)."""
+    """Map fn over items in forked workers; results come back in item order.  Worker w handles
+    chunks w, w+jobs, w+2*jobs, ... and streams (chunk index, results) to a private file.  A
+    dead or hung worker is a harness failure (WorkerDied), never a silent success.  With
+    budget_s, workers stop starting new chunks once the budget is spent and the longest
+    complete prefix of results is returned.  (Plain fork instead of concurrent.futures: its
+    workers ran this code 3-4x slower here, dominated by mmap/munmap churn.)"""
+    import pickle
+    import shutil
+    import signal
+    import tempfile
     items = list(items)
     jobs = jobs or ncpu()
     chunks = [items[i:i + chunk] for i in range(0, len(items), chunk)]
-    out = []
+    if not chunks:
+        return []
     t0 = time.monotonic()
-    if jobs == 1:
+    jobs = min(jobs, len(chunks))
+    if jobs <= 1:
+        out = []
         for c in chunks:
             if budget_s is not None and time.monotonic() - t0 > budget_s:
                 break
             out.extend(_chunk_entry((fn, c, wall_per_chunk)))
         return out
-    ctx = _mp.get_context('fork')
-    counter = ctx.Value('i', 0)
-    with _cf.ProcessPoolExecutor(max_workers=jobs, mp_context=ctx, initializer=_pin_init,
-                                 initargs=(counter,)) as ex:
-        pending = {}
+    tmpdir = tempfile.mkdtemp(prefix='verif-pmap-')
+    pids = {}
+    sys.stdout.flush()
+    sys.stderr.flush()
+    try:
+        for w in range(jobs):
+            pid = os.fork()
+            if pid == 0:
+                code = 0
+                try:
+                    _pin(w)
+                    with open(os.path.join(tmpdir, 'w%d' % w), 'wb') as f:
+                        for ci in range(w, len(chunks), jobs):
+                            if budget_s is not None and time.monotonic() - t0 > budget_s:
+                                break
+                            res = _chunk_entry((fn, chunks[ci], wall_per_chunk))
+                            pickle.dump((ci, res), f)
+                            f.flush()
+                except BaseException:
+                    import traceback
+                    traceback.print_exc()
+                    code = 3
+                finally:
+                    sys.stdout.flush()
+                    sys.stderr.flush()
+                    os._exit(code)
+            pids[pid] = w
+        per_worker = (len(chunks) + jobs - 1) // jobs
+        limit = (budget_s + wall_per_chunk if budget_s is not None else per_worker * wall_per_chunk) + 30
+        remaining = dict(pids)
+        while remaining:
+            for pid in list(remaining):
+                r, status = os.waitpid(pid, os.WNOHANG)
+                if r:
+                    w = remaining.pop(pid)
+                    if status != 0:
+                        raise WorkerDied('worker %d exited with status %#x' % (w, status))
+            if remaining:
+                if time.monotonic() - t0 > limit:
+                    raise WorkerDied('workers still running after %ds' % limit)
+                time.sleep(0.02)
         results = {}
-        nxt = 0
-        done_upto = 0
-        try:
-            while nxt < len(chunks) or pending:
-                while nxt < len(chunks) and len(pending) < jobs * 2:
-                    if budget_s is not None and time.monotonic() - t0 > budget_s:
-                        chunks = chunks[:nxt]
-                        break
-                    f = ex.submit(_chunk_entry, (fn, chunks[nxt], wall_per_chunk))
-                    pending[f] = nxt
-                    nxt += 1
-                if not pending:
-                    break
-                done, _ = _cf.wait(list(pending), timeout=wall_per_chunk + 30,
-                                   return_when=_cf.FIRST_COMPLETED)
-                if not done:
-                    raise WorkerDied('no worker finished a chunk within %ss' % (wall_per_chunk + 30))
-                for f in done:
-                    idx = pending.pop(f)
+        for w in range(jobs):
+            with open(os.path.join(tmpdir, 'w%d' % w), 'rb') as f:
+                while True:
                     try:
-                        results[idx] = f.result()
-                    except _cf.process.BrokenProcessPool as e:
-                        raise WorkerDied('worker process died: %r' % (e,))
-        except BaseException:
-            for f in pending:
-                f.cancel()
-            ex.shutdown(wait=False, cancel_futures=True)
-            raise
-        for i in range(len(chunks)):
-            if i in results:
-                out.extend(results[i])
-            else:
+                        ci, res = pickle.load(f)
+                    except EOFError:
+                        break
+                    results[ci] = res
+        out = []
+        for ci in range(len(chunks)):
+            if ci not in results:
                 break
-    return out
+            out.extend(results[ci])
+        return out
+    finally:
+        for pid in pids:
+            try:
+                os.kill(pid, signal.SIGKILL)
+            except OSError:
+                pass
+            try:
+                os.waitpid(pid, 0)
+            except OSError:
+                pass
+        shutil.rmtree(tmpdir, ignore_errors=True)
 
 
 # -- known findings -------------------------------------------------------------------
